@@ -22,6 +22,7 @@ type valConfig struct {
 	noRedactable bool // no RedactableString/Bytes/StringBuilder operands
 	noPointers   bool // nothing that prints an address
 	noSafeFmt    bool // no SafeFormatter / SafeMessager (e.g. inside error-hook tests)
+	noErrors     bool // no error values (operands printed by an error hook: it would be re-entered forever)
 	maxTok       int
 	reg          map[string]bool // registered kinds (their leaves are public)
 }
@@ -168,7 +169,21 @@ var pointerKinds = map[string]bool{"pstr": true, "pint": true, "chan": true, "fu
 	"errfmter": true, "psafefmt": true, "errsafefmt": true, "psb": true, "pstringer!": true, "perr!": true, "rv": true}
 
 // pickK picks a kind, avoiding pointer kinds if the configuration says so.
+// errorKinds implement error.
+var errorKinds = map[string]bool{"err": true, "perr": true, "stderr": true, "serr": true, "ierr": true, "errwrap": true, "errwrapv": true,
+	"errstringer": true, "errfmter": true, "sverr": true, "errsafefmt": true, "errsafemsg": true, "err!": true, "perr!": true, "nilerr": true,
+	"errslice": true, "structB": true, "pstructB": true}
+
 func (c *valConfig) pickK(rt *rapid.T, label string, xs []string) string {
+	if c.noErrors {
+		var ys []string
+		for _, x := range xs {
+			if !errorKinds[x] {
+				ys = append(ys, x)
+			}
+		}
+		xs = ys
+	}
 	if c.noPointers {
 		var ys []string
 		for _, x := range xs {
@@ -271,7 +286,7 @@ func (c *valConfig) genVal(rt *rapid.T, depth int, pub bool) *Val {
 		}
 		return v
 	case "nil":
-		return &Val{K: pick(rt, "k", nilKinds)}
+		return &Val{K: c.pickK(rt, "k", nilKinds)}
 	case "ptr":
 		k := pick(rt, "k", ptrKinds)
 		switch k {
@@ -283,7 +298,7 @@ func (c *valConfig) genVal(rt *rapid.T, depth int, pub bool) *Val {
 		return &Val{K: k}
 	case "method":
 		if rapid.IntRange(0, 4).Draw(rt, "mi") == 0 {
-			return c.leafI(rt, pick(rt, "k", methodIntKinds), pub)
+			return c.leafI(rt, c.pickK(rt, "k", methodIntKinds), pub)
 		}
 		k := c.pickK(rt, "k", methodStrKinds)
 		if k == "stderr" && !c.noPointers && rapid.IntRange(0, 2).Draw(rt, "wrap") == 0 {
@@ -310,7 +325,7 @@ func (c *valConfig) genVal(rt *rapid.T, depth int, pub bool) *Val {
 			v.I = genInt(rt, "svi")
 			return v
 		}
-		return c.leafS(rt, pick(rt, "k", svStrKinds), true, false)
+		return c.leafS(rt, c.pickK(rt, "k", svStrKinds), true, false)
 	case "reg":
 		switch rapid.IntRange(0, 3).Draw(rt, "regk") {
 		case 0:
@@ -328,7 +343,7 @@ func (c *valConfig) genVal(rt *rapid.T, depth int, pub bool) *Val {
 		}
 	case "fmter":
 		k := "fmter"
-		if rapid.IntRange(0, 3).Draw(rt, "ef") == 0 {
+		if !c.noErrors && rapid.IntRange(0, 3).Draw(rt, "ef") == 0 {
 			k = "errfmter"
 		}
 		v := c.leafS(rt, k, pub, false)
@@ -348,7 +363,7 @@ func (c *valConfig) genVal(rt *rapid.T, depth int, pub bool) *Val {
 			return &Val{K: "SafeRune", I: int64(genRune(rt, "sr", false))}
 		}
 	case "safemsg":
-		k := pick(rt, "k", []string{"safemsg", "safemsg", "errsafemsg"})
+		k := c.pickK(rt, "k", []string{"safemsg", "safemsg", "errsafemsg"})
 		if !c.noPanic && rapid.IntRange(0, 5).Draw(rt, "smp") == 0 {
 			v := c.leafS(rt, "safemsg!", true, false)
 			v.Sub = []*Val{c.genPanicPayload(rt, depth, pub)}
@@ -392,7 +407,23 @@ func (c *valConfig) genVal(rt *rapid.T, depth int, pub bool) *Val {
 }
 
 func (c *valConfig) genPanicPayload(rt *rapid.T, depth int, pub bool) *Val {
-	switch rapid.IntRange(0, 5).Draw(rt, "pp") {
+	if c.noErrors {
+		// (operands printed by an error hook: a payload that is an error would
+		// re-enter the hook, which prints the panicking operand again, forever)
+		if rapid.Bool().Draw(rt, "ppne") {
+			return c.leafI(rt, "int", pub)
+		}
+		return c.leafS(rt, "str", pub, false)
+	}
+	switch rapid.IntRange(0, 8).Draw(rt, "pp") {
+	case 6:
+		// a typed nil pointer whose method dereferences its receiver: while
+		// printing the payload this is reported as <nil>, as in fmt
+		return &Val{K: pick(rt, "ppnil", []string{"nilerr", "nilstringer"})}
+	case 7:
+		return &Val{K: "islice", Sub: []*Val{{K: pick(rt, "ppnil2", []string{"nilerr", "nilstringer"})}, c.leafS(rt, "str", pub, false)}}
+	case 8:
+		return &Val{K: "errslice", Sub: []*Val{{K: "nilerr"}, c.leafS(rt, "serr", pub, false)}}
 	case 0:
 		if c.noPointers {
 			return c.leafS(rt, "serr", pub, false)
